@@ -53,7 +53,16 @@ func VerifLegacy() {
 	ops := ops_LeafD
 	vrt.SetOwner("user")
 	pv := ops.NewZero()
-	ops.Fill(pv, "v")
+	if vrt.ParamOr("t", 0) == 1 {
+		// every container / element class, one element each (symbolic contents)
+		ops = ops_LgAll
+		pv = ops.NewZero()
+		fixedShape = 2
+		ops.Fill(pv, "v")
+		fixedShape = -1
+	} else {
+		ops.Fill(pv, "v")
+	}
 	rv := ops.ToRef(pv)
 	ref := refEncodeStruct(ops.St, rv, nil)
 	vrt.SetOwner("impl") // memory allocated by the calls below belongs to the implementation, not to the caller's value
